@@ -753,6 +753,22 @@ func (e *c17env) dial(ctx context.Context) (net.PacketConn, error) {
 	if e.end == 'C' {
 		<-e.release
 	}
+	if e.end == 'S' {
+		// the dial is in flight while Close is called and then SUCCEEDS: the carrier it returns was obtained by
+		// the connection and must be closed by it
+		<-e.release
+		e.mu.Lock()
+		e.dials++
+		e.open++
+		if e.open > e.maxOpen {
+			e.maxOpen = e.open
+		}
+		e.mu.Unlock()
+		car := &c17carrier{env: e, idx: i, mode: 'L', closed: make(chan struct{}), failRead: make(chan struct{}),
+			pkts: make(chan []byte, 4), inWrite: make(chan struct{}, 4), writeGate: make(chan struct{}), wrote: make(chan []byte, 4), wroteSig: make(chan struct{}, 4), reading: make(chan struct{})}
+		e.carriers <- car
+		return car, nil
+	}
 	return nil, c17errDial
 }
 
@@ -918,6 +934,22 @@ func c17redialScript(modes string, end byte) (outcome string, stuck string) {
 			errBefore = true
 		}
 		close(env.release)
+	case 'S':
+		if !c17wait(env.dialing) {
+			return "", "dialLoop did not dial again"
+		}
+		if err := c.Close(); err != nil {
+			errBefore = true
+		}
+		close(env.release)
+		select {
+		case car := <-env.carriers:
+			if !c17wait(car.closed) {
+				return "", "the carrier returned by a dial that was in flight during Close was not closed"
+			}
+		case <-time.After(c17deadline):
+			return "", "the dial in flight during Close did not return"
+		}
 	case 'L':
 		car := nextCarrier()
 		if car == nil {
@@ -979,8 +1011,18 @@ func c17redialCase(r *vh.Run, modes string, end byte) {
 		m = "-"
 	}
 	line := fmt.Sprintf("c17 redial %s %c", m, end)
-	model := r.Model(line)
+	oracleOnly := end == 'S' // Close while a dial is in flight that then succeeds: judged by the property's clauses only
+	model := ""
+	if !oracleOnly {
+		model = r.Model(line)
+	}
 	real, stuck := c17redialScript(modes, end)
+	if oracleOnly {
+		model = real
+		if stuck != "" {
+			model = "stuck: " + stuck
+		}
+	}
 	if stuck == "" && real != model {
 		// timing-dependent observation: run the script once more before believing a disagreement
 		time.Sleep(300 * time.Millisecond)
@@ -1129,7 +1171,8 @@ func TestVerifC17(t *testing.T) {
 	fixed := []struct {
 		modes string
 		end   byte
-	}{{"", 'F'}, {"", 'C'}, {"", 'L'}, {"W", 'F'}, {"R", 'F'}, {"B", 'F'}, {"WWWWW", 'C'}, {"WRB", 'L'}, {"RRR", 'F'}, {"BWBW", 'C'}}
+	}{{"", 'F'}, {"", 'C'}, {"", 'L'}, {"W", 'F'}, {"R", 'F'}, {"B", 'F'}, {"WWWWW", 'C'}, {"WRB", 'L'}, {"RRR", 'F'}, {"BWBW", 'C'},
+		{"", 'S'}, {"W", 'S'}, {"RWB", 'S'}}
 	for _, f := range fixed {
 		c17redialCase(r, f.modes, f.end)
 	}
@@ -1142,6 +1185,72 @@ func TestVerifC17(t *testing.T) {
 		for j := 0; j < n; j++ {
 			b.WriteByte("WRB"[rng.Intn(3)])
 		}
-		c17redialCase(r, b.String(), "FCL"[rng.Intn(3)])
+		c17redialCase(r, b.String(), "FCLS"[rng.Intn(4)])
+	}
+	c17ConcurrentEnqueue(r)
+}
+
+// c17ConcurrentEnqueue: several carriers call QueueIncoming / WriteTo at the same time while fewer slots
+// are free than callers and nobody drains the queue: every call returns at once (packets beyond the
+// capacity are dropped), none blocks, and what is queued is whole packets of the callers in FIFO order per
+// caller.
+func c17ConcurrentEnqueue(r *vh.Run) {
+	for round := 0; round < r.N(6, 60); round++ {
+		c := NewQueuePacketConn(c17addr(1), time.Hour)
+		free := round % 5 // slots left free before the burst
+		callers := 8
+		dir := []string{"incoming", "outgoing"}[round%2]
+		fill := queueSize - free
+		for i := 0; i < fill; i++ {
+			if dir == "incoming" {
+				c.QueueIncoming([]byte{0, byte(i), byte(i >> 8)}, c17addr(5))
+			} else {
+				c.WriteTo([]byte{0, byte(i), byte(i >> 8)}, c17addr(5))
+			}
+		}
+		start := make(chan struct{})
+		done := make(chan int, callers)
+		for g := 0; g < callers; g++ {
+			go func(g int) {
+				<-start
+				p := make([]byte, 1<<16)
+				p[0] = byte(1 + g)
+				if dir == "incoming" {
+					c.QueueIncoming(p, c17addr(5))
+				} else {
+					c.WriteTo(p, c17addr(5))
+				}
+				done <- g
+			}(g)
+		}
+		close(start)
+		returned := 0
+		deadline := time.After(3 * time.Second)
+	wait:
+		for returned < callers {
+			select {
+			case <-done:
+				returned++
+			case <-deadline:
+				break wait
+			}
+		}
+		line := fmt.Sprintf("c17 burst %s free=%d callers=%d", dir, free, callers)
+		r.Case("q/concurrent-burst/"+dir, line, true)
+		if returned < callers {
+			r.OracleFail("queue-op-blocks-when-full", line, fmt.Sprintf("%d of %d concurrent calls still blocked after 3 s", callers-returned, callers),
+				"QueueIncoming / WriteTo must never block: a packet that does not fit is dropped")
+		}
+		queued := 0
+		if dir == "incoming" {
+			queued = len(c.recvQueue)
+		} else {
+			queued = len(c.OutgoingQueue(c17addr(5)))
+		}
+		if returned == callers && queued != queueSize && free <= callers {
+			r.OracleFail("queue-burst-wrong-length", line, fmt.Sprintf("queue holds %d packets, capacity %d", queued, queueSize),
+				"with at least as many callers as free slots the queue must end up full, and never over capacity")
+		}
+		c.Close() // unblocks stuck callers of a broken implementation
 	}
 }
